@@ -133,7 +133,7 @@ def build_aggregate(cx, nmol=2, mult=1, with_bath=True, coupling=0.01, energies=
     return agg
 
 
-def spectral_hamiltonian(cx, n, block=None, tag="H", handler_kw=None):
+def spectral_hamiltonian(cx, n, block=None, tag="H", handler_kw=None, planes=None):
     """real symmetric n x n matrix given by its eigen-decomposition H = S diag(w) S^T
     (all such matrices, by the spectral theorem).  Symbolic mode: registered with the eigh
     stub.  Replay mode: rebuilt with floats from the model's rotation parameters."""
@@ -143,7 +143,8 @@ def spectral_hamiltonian(cx, n, block=None, tag="H", handler_kw=None):
         h = npatch.EIGH_HANDLER[0]
         if h is None:
             h = linalg.use_eigh(**(handler_kw or dict(eigen_equation=True, block=block, signs=False)))
-        H, w, S = linalg.spectral_symmetric(h, n, block=block, tag=tag)
+        H, w, S = linalg.spectral_symmetric(h, n, block=block, tag=tag,
+                                            planes=[tuple(p) for p in planes] if planes else None)
         return H, w, S
     S = numpy.eye(n)
     k = 0
@@ -151,6 +152,8 @@ def spectral_hamiltonian(cx, n, block=None, tag="H", handler_kw=None):
         for ii in range(len(blk)):
             for jj in range(ii + 1, len(blk)):
                 i, j = blk[ii], blk[jj]
+                if planes and [i, j] not in [list(p) for p in planes]:
+                    continue
                 c, s_ = cx.real("%s.S.c%d" % (tag, k), 0.3, 0.9), cx.real("%s.S.s%d" % (tag, k), 0.3, 0.9)
                 nrm = (c * c + s_ * s_) ** 0.5
                 c, s_ = c / nrm, s_ / nrm
@@ -168,3 +171,25 @@ def spectral_hamiltonian(cx, n, block=None, tag="H", handler_kw=None):
     H = (S * w2[None, :]) @ S.T
     H = (H + H.T) / 2
     return H, w2, S
+
+
+def spectral_hermitian(cx, n=2, tag="W"):
+    """complex Hermitian 2x2 matrix given by its eigen-decomposition W = S diag(w) S^+ with
+    S = G(c,s) diag(u_0,u_1), c^2+s^2=1, |u_i|=1 (all of U(2) up to a global phase)"""
+    assert n == 2
+    if cx.sym:
+        from symnum import linalg, npatch
+        h = linalg.use_eigh(eigen_equation=True, signs=False, unitary=True)
+        return linalg.spectral_symmetric(h, n, tag=tag)
+    c, s_ = cx.real("%s.S.c0" % tag, 0.3, 0.9), cx.real("%s.S.s0" % tag, 0.3, 0.9)
+    nrm = (c * c + s_ * s_) ** 0.5
+    c, s_ = c / nrm, s_ / nrm
+    S = numpy.array([[c, -s_], [s_, c]], dtype=complex)
+
+    v = cx.cplx("%s.S.v1" % tag)
+    v = v / abs(v) if abs(v) > 0 else 1.0
+    S[1, :] *= v
+    w = numpy.sort(numpy.array([cx.real("%s.w%d" % (tag, i), 0.0, 1.0) for i in range(2)]))
+    W = (S * w[None, :]) @ numpy.conj(S.T)
+    W = (W + numpy.conj(W.T)) / 2
+    return W, w, S
